@@ -146,7 +146,13 @@ def processLine (prop : String) (line : String) : String := Id.run do
           | .fin q => s!" rej={sci (ratToFloat q)}"
           | _ => " rej=special"
         | none => ""
-      return s!"{id} corr={corr} twin={if twinEq then "eq" else "ne:" ++ twinCls} maxdev={sci (ratToFloat maxdev)} oracle={orc} mcls={ex.cls} icls={impl.cls} tags={tags}{rej}"
+      -- size of the miss in units of the format's ε (= ulps of 1): distance of the rejected value from the admissible set
+      let miss := match impl.rej with
+        | some r => match decodeBits .f64 r with
+          | .fin q => s!" miss={(Oracle.rejDistance impl.label q / f.eps).ceil}"
+          | _ => ""
+        | none => ""
+      return s!"{id} corr={corr} twin={if twinEq then "eq" else "ne:" ++ twinCls} maxdev={sci (ratToFloat maxdev)} oracle={orc} mcls={ex.cls} icls={impl.cls} tags={tags}{rej}{miss}"
     return run fmt
   | _ => return "? bad-line"
 
